@@ -7,7 +7,7 @@ guard models (ocaml/ops_driver.ml).  Exploration (NOT proof, counted separately)
 registered signature with type-correct arguments from per-type value pools; a sweep case only has to end without
 crash / escaping exception / hang / allocation blow-up, and its "unknown type combination" diagnostic has to agree
 with the dispatch model."""
-import json, os, struct, sys
+import json, os, re, struct, sys
 from fractions import Fraction
 import vcommon as V
 
@@ -311,6 +311,31 @@ def gen_cases(rng, thorough):
             v = varr(a)
             cs.append(Case("sort", "_a = %s; _a sort %s; _a" % (v.sqf, "true" if flag else "false"), ["sort", v.tok, "1" if flag else "0"],
                            {"r": "sorted", "toks": [x.tok for x in a], "flag": flag}, defect="sort-comparator"))
+    # ---- sort: rows whose NESTED arrays (depth 2 and 3) differ in length, element type or depth.  sort's structure check
+    # looks at one level only (every row has the size and element types of row 0); whatever compares rows must not
+    # trust it any deeper.  Ordered pairs give both row orders (std::sort hands the later row over first), the longer
+    # lists make it compare in both directions; prefixes of one another keep a recursing comparison going to the end.
+    P = [vint(1), vint(2), vint(3)]
+    inner = [varr([]), varr(P[:1]), varr(P[:2]), varr(P), varr([vstr("a")]), varr([vint(1), vstr("a")]), varr([varr([vint(1)])]),
+             varr([varr(P)]), varr([vnum(NAN)])]
+    shapes = [lambda x: [x], lambda x: [vint(1), x], lambda x: [x, vstr("leaf")], lambda x: [varr([x])],
+              lambda x: [vstr("k"), varr([vint(1), x])]]
+    nested = []
+    for sh in shapes:
+        for x in inner:
+            for y in inner:
+                if x is not y:
+                    nested.append([varr(sh(x)), varr(sh(y))])
+    for k in ([3, 5, 17, 20, 40] if thorough else [3, 5, 17, 20]):
+        for sh in shapes:
+            for _ in range(6 if thorough else 1):
+                nested.append([varr(sh(rng.choice(inner[:4]))) for _ in range(k)])
+                nested.append([varr(sh(rng.choice(inner))) for _ in range(k)])
+    for a in nested:
+        for flag in (True, False):
+            v = varr(a)
+            cs.append(Case("sort-nested", "_a = %s; _a sort %s; _a" % (v.sqf, "true" if flag else "false"), ["sort", v.tok, "1" if flag else "0"],
+                           {"r": "sorted", "toks": [x.tok for x in a], "flag": flag}, defect="sort-comparator"))
     # ---- param / params
     inputs = [[], [vint(5)], [vint(5), vstr("s")], [varr([vint(1), vint(2)])], [vint(5), varr([]), vbool(True), CODE]]
     descr = [[], [vint(0)], [vint(1)], [vint(7)], [vnum(fin(-1))], [vnum(fin(0.9))], [vnum(fin(1e20, "1e20"))], [vnum(NAN)], [vnum(INF)],
@@ -520,6 +545,10 @@ def parse_print_array(v):
     return out
 
 
+NEGATIVE_CODES = {"1:60011", "2:60012", "1:60016", "2:60017"}      # NegativeIndex(Weak), NegativeSize(Weak)
+NEGATIVE_ARG = re.compile(r"N-|Qninf|Qnan")
+
+
 def compare(case, impl, model):
     """-> None when the implementation behaves as the model says, else (what, is_crash)"""
     if impl.split("\t")[0].split(";")[0].split(" ")[0] in CRASHY or impl.startswith("HARNESS"):
@@ -540,6 +569,14 @@ def compare(case, impl, model):
     err = codes != "-" and any(c.split(":")[0] in ("0", "1") for c in codes.split(","))
     exp_rc, exp_codes = ("2", codes + ",0:60001") if err else ("-1", codes)
     if f[0] != exp_rc or f[1] != exp_codes:
+        # property-level: a diagnostic about a NEGATIVE index / size although every number among the arguments is >= 0
+        # (no negative number, no -inf, no NaN): a float -> int conversion left the range of int (undefined; the usual
+        # symptom is INT_MIN for a value at or above 2^31)
+        neg = set(f[1].split(",")) & NEGATIVE_CODES
+        if neg and not (set(exp_codes.split(",")) & NEGATIVE_CODES) and not NEGATIVE_ARG.search("\t".join(case.model)):
+            return ("the operator reports a negative index / size (%s) although no argument is negative or NaN: a number at or above "
+                    "2^31 was converted to a negative int (float -> int conversion outside the range of int); expected %s;%s, got %s;%s"
+                    % (",".join(sorted(neg)), exp_rc, exp_codes, f[0], f[1]), True)
         return ("result class / diagnostics differ: implementation %s;%s, model %s;%s" % (f[0], f[1], exp_rc, exp_codes), False)
     if err:
         return None
@@ -859,6 +896,8 @@ def main(replay=None):
                        "and arity, -2147483904 .. 1e30, halves, +-inf, NaN, empty strings, null handles); every case runs in a forked child of the "
                        "harness and is compared with the extracted guard model on result class, diagnostics (level:code) and the printed value; "
                        "evaluations = cases of modelled operators; a case is trivial when it is an in-range select; distinct by script text / file bytes. "
+                       "sort also runs on rows whose nested arrays (depth 2 and 3) differ in length, element type or depth, in both row orders and both directions; "
+                       "a negative-index / negative-size diagnostic for arguments without a negative number or NaN is a concrete violation (float -> int conversion left the range of int). "
                        "The registry sweep is reported separately under 'sweep_exploration' and is NOT part of the proof.")
     run.cov["input_distribution"] = kinds
     run.cov["samples"] = samples
